@@ -614,8 +614,11 @@ def instance_notifiers(ctx, res):
         # notifier list: PyList_New, never the class list pointer
         notif = [v for k, v in p.env.items() if k.endswith("->notifiers")
                  and "PyType_GenericAlloc" in k]
+        from .cstore import fresh_oracle
+        is_fresh = fresh_oracle(ctx, facts)
         for v in notif:
-            if not v.startswith("PyList_New(") and "share" not in seen:
+            if not v.startswith("PyList_New(") and not is_fresh(v) \
+                    and "share" not in seen:
                 seen.add("share")
                 res.violation("get_trait:shared-notifiers", f"{CREL}:{e[3]}",
                               f"the instance trait's notifier list is "
